@@ -93,6 +93,12 @@ def Sched.add (s : Sched G) (P : G) (b : Nat) (sign : Bool) : Sched G :=
     | _ => { s with pending := s.pending ++ [(b, P, sign)] }
   if s1.pending.length = 64 then s1.execute else s1
 
+/-- `Bucket::add(&self, other: &BucketAffine)`: Jacobian bucket plus affine bucket. -/
+def mergeBucket (j : G) (a : Option G) : G :=
+  match a with
+  | none => j
+  | some p => j + p
+
 /-- One window of `msm_best`: Jacobian buckets (greedy) + scheduled affine buckets, summation by
 parts, shift to the window position. -/
 def windowBest (w c : Nat) (coeffs : List (List Nat)) (bases : List G) : G :=
@@ -107,7 +113,7 @@ def windowBest (w c : Nat) (coeffs : List (List Nat)) (bases : List G) : G :=
       if st.2.contains b then (st.1.modify b (· + signed cb.2 sign), st.2)
       else (st.1, st.2.add cb.2 b sign)) init
   let sched := st.2.execute
-  let merged := List.zipWith (fun j a => match a with | none => j | some p => j + p) st.1 sched.buckets
+  let merged := List.zipWith mergeBucket st.1 sched.buckets
   dblN (c * w) (sumByParts merged 0)
 
 /-- `msm.rs: pub fn msm_best` on a pool of `t` threads, for a scalar field of `numBits` bits. -/
